@@ -662,3 +662,17 @@ def _o():
     G = M.G2
     lam = FQ2([FQ(3), FQ(4)])
     return (f, [(G[0] * lam, G[1] * lam, lam)], {})
+
+
+@op("expand_message_xmd:bytearray-msg-and-dst-twice", 0)
+def _o():
+    H = I("py_ecc.bls.hash")
+    def f(m, d):
+        return (H.expand_message_xmd(m, d, 40, hashlib.sha256), H.expand_message_xmd(m, d, 40, hashlib.sha256))
+    return (f, [bytearray(b"abc"), bytearray(b"QUUX-V01-CS02")], {})
+
+
+@op("hash_to_G2:bytearray-dst", 2)
+def _o():
+    H = I("py_ecc.bls.hash_to_curve")
+    return (H.hash_to_G2, [b"abc", bytearray(b"another tag"), hashlib.sha256], {})
